@@ -127,7 +127,7 @@ def run(chk, replay=None):
         real_mpi(chk)
         bad = [dict(r) for r in rows]
         i = next(k for k, e in enumerate(bad) if e["e"] == "Eval" and e["rank"] == 1 and e["pos"] >= 0)
-        bad[i]["pos"] += 1
+        bad[i]["pos"] += 64  # another call's stream position
         p = chk.path("selftest.ndjson")
         vt.write_ndjson(p, bad)
         r2 = vt.tlc("Trace_C04", env={"TRACE": p}, workers=1, tag="C04")
